@@ -493,6 +493,31 @@ def boxcount(run, fx):
         run.held('LOADERSIB', inst, ctor.loc(pe), '%d read_glyph calls, %s contract, total `%s`' % (len(calls), 'accumulating' if accum else 'per-glyph', vname))
 
 
+def boxall(run, fx):
+    """LOADERSIB: a preloaded face has the collision box of EVERY glyph the lazy loader would read, glyph 0 (.notdef) included: the loop
+    of the preloading constructor that stores `_boxes[gid]` starts at 0 (the glyph loop above it starts at 1 only because glyph 0 is
+    read by a separate call), counts up by one and ends at _num_glyphs."""
+    ctor = [f for f in fx.fns_named('graphite2::GlyphCache::GlyphCache') if not f.f.get('implicit')][0]
+    inst = 'the preload box loop starts at glyph 0'
+    st = [e for _, e in ctor.elements() if e['k'] == 'BinaryOperator' and e['op'] == '=' and ctor.strip(e['c'][0])['k'] == 'ArraySubscriptExpr'
+          and ctor.strip_all_casts(ctor.N(ctor.strip(e['c'][0])['c'][0])).get('d', '').endswith('GlyphCache::_boxes') and not ctor.is_null(e['c'][1])]
+    if len(st) != 1:
+        run.broken('LOADERSIB', inst, 'expected one store `_boxes[gid] = ..` in the preloading constructor, found %d' % len(st), ctor.where())
+        return
+    idx = ctor.strip_all_casts(ctor.N(ctor.strip(st[0]['c'][0])['c'][1]))
+    inits = [x for _, d in ctor.elements() if d['k'] == 'DeclStmt' for x in d.get('decls', []) if x.get('vid') == idx.get('vid') and x.get('init') is not None] if idx['k'] == 'DeclRefExpr' else []
+    if len(inits) != 1:
+        run.broken('LOADERSIB', inst, 'the loop variable indexing _boxes was not recognised', ctor.loc(st[0]))
+        return
+    v0 = ctor.strip_all_casts(ctor.N(inits[0]['init'])).get('v')
+    steps = [e for _, e in ctor.elements() if e['k'] == 'UnaryOperator' and e.get('op') in ('pre++', 'post++', 'pre--', 'post--') and ctor.strip_all_casts(ctor.N(e['c'][0])).get('vid') == idx['vid']]
+    if v0 == 0 and steps and all(e['op'].endswith('++') for e in steps):
+        run.held('LOADERSIB', inst, ctor.loc(st[0]), '%s starts at 0 and only counts up' % ctor.render(idx))
+    else:
+        run.violated('LOADERSIB', inst, ctor.loc(st[0]), 'the loop that reads the collision boxes of a preloaded face starts at glyph %s: _boxes[0..%s) stays null while a face without '
+                     'gr_face_preloadGlyphs reads those boxes on demand -- collision avoidance and kerning against .notdef differ between the two' % (v0, v0))
+
+
 def run(run):
     fx = run.facts('Q0')
     opssize(run, fx)
@@ -503,6 +528,7 @@ def run(run):
     try:
         boxsize(run, fx)
         boxcount(run, fx)
+        boxall(run, fx)
     except AnalysisBroken as ex:
         run.broken('LOADERSIB', 'box records: two rectangles per sub-box at every site', str(ex))
     lazyaccess(run, fx)
